@@ -36,6 +36,9 @@ func (e *SingleNestExpr) Eval(ctx context.Context, local Scope) (Value, error) {
 		if err != nil {
 			return nil, err
 		}
+		if set.IsTrue() && !relAttrs.Has(e.attr) {
+			return nil, WrapContextErr(validNestOp(relAttrs, NewNames(e.attr)), e, local)
+		}
 		return SingleAttrNest(set, relAttrs, e.attr), nil
 	}
 	return nil, WrapContextErr(errors.Errorf("nest lhs must be relation, not %s", ValueTypeAsString(value)), e, local)
